@@ -147,14 +147,33 @@ def anm_ivs(g, p, how=None):
 
 
 def seed_value(s):
-    """Integer value of a seed literal (python int, or {'__np__': [dtype, value]})."""
+    """Integer value of a seed literal (python int, {'__np__': [dtype, value]} or {'__ss__': [entropy, name]})."""
     if isinstance(s, dict):
-        return s["__np__"][1]
+        return s["__np__"][1] if "__np__" in s else s["__ss__"][0]
     return s
 
 
 def seed_is_numpy(s):
-    return isinstance(s, dict)
+    return isinstance(s, dict) and "__np__" in s
+
+
+def seed_is_object(s):
+    return isinstance(s, dict) and "__ss__" in s
+
+
+def seed_object(world, s):
+    """Python value of a seed literal.  A SeedSequence literal names ONE object that the simulated caller
+    keeps and passes again (numpy's default_rng accepts it and does not change it)."""
+    from .canon import dec
+    if s is not None and not isinstance(s, (int, dict)):
+        return s          # already a python object
+    if isinstance(s, dict) and "__ss__" in s:
+        objs = world.__dict__.setdefault("seed_objects", {})
+        ent, name = s["__ss__"]
+        if name not in objs:
+            objs[name] = np.random.SeedSequence(ent)
+        return objs[name]
+    return dec(s)
 
 
 def np_seed(g, value):
@@ -171,6 +190,8 @@ def seed_alphabet(g):
         out.append(np_seed(g, g.choice(base)))
     if g.random() < 0.3:
         out.append(np_seed(g, 0))
+    if g.random() < 0.2:
+        out.append({"__ss__": [g.getrandbits(32), "ss%d" % g.getrandbits(16)]})
     if g.random() < 0.15:
         # beyond what np.random.seed accepts (it raises, consistently) but fine for default_rng
         out.append(g.choice([2 ** 32, 2 ** 32 + g.getrandbits(20), 2 ** 63 + g.getrandbits(30)]))
@@ -182,4 +203,4 @@ def seed_class(s):
     if v is None:
         return "none"
     c = "0" if v == 0 else "small" if v < 1000 else "32bit" if v < 2 ** 32 else "big"
-    return c + ("/np" if seed_is_numpy(s) else "")
+    return c + ("/np" if seed_is_numpy(s) else "/ss" if seed_is_object(s) else "")
